@@ -944,6 +944,18 @@ func (r *resolver) expandAugment(y *Augment, parent Meta) error {
 					return err
 				}
 				_, err = r.enter(cs)
+			} else if u, isUses := d.(*Uses); isUses {
+				// each node of the grouping is an implied case of its own, not one
+				// case holding all of them
+				holder := &Augment{ident: y.ident, parent: target, originalParent: y}
+				if _, err = r.expandUses(holder, u); err == nil {
+					for _, x := range holder.DataDefinitions() {
+						cs := r.builder.Case(target, x.Ident())
+						if _, err = r.addDataDefinition(cs, x.(cloneable).clone(cs).(Definition)); err != nil {
+							break
+						}
+					}
+				}
 			} else {
 				// add implied case
 				cs := r.builder.Case(target, d.Ident())
